@@ -75,6 +75,7 @@ register(Contract(
         'true-only-if-no-eigenvalue-is-zero': lambda a, r: z3.Implies(z3.And(r, TH.lenT(a.w.term) == a.w.dim(0)),
                                                                       z3.Not(TH.anyT(TH.cmps('eq')(a.w.term, z3.RealVal(0))))),
         'false-only-if-some-eigenvalue-is-within-tol': lambda a, r: z3.Implies(z3.Not(r), TH.anyT(TH.cmps('le')(TH.absT(a.w.term), sdp_tol(a)))),
+        'true-only-if-no-eigenvalue-is-within-tol': lambda a, r: z3.Implies(r, z3.Not(TH.anyT(TH.cmps('le')(TH.absT(a.w.term), sdp_tol(a))))),
     },
     raises={'ValueError': Iff(lambda a: z3.BoolVal(False) if a.tol is None else a.tol < 0),
             'NonPSDError': Iff(lambda a: z3.And(sdp_tol(a) >= 0, TH.anyT(TH.cmps('lt')(a.w.term, -sdp_tol(a)))))},
@@ -177,11 +178,14 @@ register(Contract(
         # C17: the returned matrices never share memory with the caller's `init` array or the training data
         'fresh': lambda a, r: None if imm_bad(a) else z3.BoolVal(all(len(m.owner) == 0 for m in imm_mats(a, r))),
         # C11 / C20: with strict_pd the returned matrix is positive definite
-        'strict_pd-result-is-positive-definite': lambda a, r: None if (imm_bad(a) or not z3.is_true(a.strict_pd)) else TH.pd(imm_mats(a, r)[0].term),
+        # (not claimed for init='covariance': positive definiteness of the pseudo-inverse built by _pseudo_inverse_from_eig is a value-level
+        #  fact of that helper which is not under a value-level contract)
+        'strict_pd-result-is-positive-definite': lambda a, r: None if (imm_bad(a) or not z3.is_true(a.strict_pd) or a.init == 'covariance')
+            else TH.pd(imm_mats(a, r)[0].term),
     },
     raises={'ValueError': May() , 'LinAlgError': May(), 'NonPSDError': May()},
     events={'randomness-only-from-random_state': lambda a, ev, r: z3.BoolVal(all(
-        e[2] in ('int-seed',) or (e[2] == 'global-unseeded' and a.random_state is None) for e in ev if e[0] == 'random-draw'))},
+        e[2] in ('int-seed', 'seeded') or (e[2] == 'global-unseeded' and a.random_state is None) for e in ev if e[0] in ('random-draw', 'random-source')))},
     returns=Returns(imm_returns), modifies=set(), prop=['C03', 'C17', 'C20']))
 C.unit('C20', '_util:_initialize_metric_mahalanobis')
 C.unit('C03', '_util:_initialize_metric_mahalanobis')
@@ -234,7 +238,7 @@ register(Contract(
     },
     raises={'ValueError': May()},
     events={'randomness-only-from-random_state': lambda a, ev, r: z3.BoolVal(all(
-        e[2] in ('int-seed',) or (e[2] == 'global-unseeded' and a.random_state is None) for e in ev if e[0] == 'random-draw'))},
+        e[2] in ('int-seed', 'seeded') or (e[2] == 'global-unseeded' and a.random_state is None) for e in ev if e[0] in ('random-draw', 'random-source')))},
     returns=mat_result(lambda a: [a.n_components, a.input.dim(1)]), modifies=set(), prop=['C03', 'C17', 'C20']))
 C.unit('C20', '_util:_initialize_components')
 C.unit('C03', '_util:_initialize_components')
